@@ -9,6 +9,7 @@ import Model.Migration
 import Model.InquiryEq
 import Model.Serialize
 import Model.Prefilter
+import Model.MongoMig
 /-!
 # `vaktdrv`: one case per line in, one result per line out
 -/
@@ -269,6 +270,19 @@ def handle (toks : List String) : Option String :=
     let (p, ts) ← pPolicy ts
     let q ← full (pInquiry ts)
     pure ("ok " ++ showB (Vakt.Prefilter.candidate b k p q))
+  | "MIGDOC" :: which :: ts => do
+    let v ← full (pVal ts)
+    let proc ← (match which with
+      | "m2up" => some Vakt.MongoMig.m2up | "m2down" => some Vakt.MongoMig.m2down
+      | "m3up" => some Vakt.MongoMig.m3up | "m3down" => some Vakt.MongoMig.m3down
+      | "m4down" => some Vakt.MongoMig.m4down | _ => none)
+    match v with
+    | .dict d =>
+      (match proc d with
+       | .ok d' => pure ("ok " ++ showVal (PyVal.dict d'))
+       | .error .irreversible => pure "irreversible"
+       | .error .other => pure "other")
+    | _ => none
   | "POBJ" :: ts => do
     let (ctor, ts) ← pCounted pAssign ts
     let steps ← full (pCounted pAssign ts)
